@@ -389,6 +389,11 @@ class Interp:
         m = re.match(r'^(-?\d+)_(\w+)$', t)
         if m: return VInt(int(m.group(1)), m.group(2))
         if t in ('true', 'false'): return VBool(t == 'true')
+        m = re.match(r'^(?:(?:std|core)::)?([iu](?:8|16|32|64|128|size))::(MIN|MAX|BITS)$', t)
+        if m:
+            lo, hi = INT_RANGE[m.group(1)]
+            if m.group(2) == 'BITS': return VInt({'8': 8, '16': 16, '32': 32, '64': 64, '128': 128, 'size': 64}[m.group(1)[1:]], 'u32')
+            return VInt(lo if m.group(2) == 'MIN' else hi, m.group(1))
         if t == '()': return VUnit()
         m = re.match(r'^b?"(.*)"$', t, re.S)
         if m:
@@ -563,12 +568,16 @@ class Interp:
             m = re.match(r'^(.*)::(\w+)$', re.sub(r'::<.*>(?=::\w+$)', '', path))
             if m and self.is_enum_type(m.group(1)) and m.group(2) in self.enum_table(m.group(1)):
                 return VEnum(m.group(1), m.group(2), items)
+            if destty and '::' not in path and self.is_enum_type(destty) and path in self.enum_table(destty):
+                return VEnum(destty, path, items)
             return VStruct(path, items)
         if k == 'adt_tuple' or k == 'adt_unit':
             path = rv[1]; items = [self.operand(frame, o) for o in rv[2]] if k == 'adt_tuple' else []
             m = re.match(r'^(.*)::(\w+)$', re.sub(r'::<.*>(?=::\w+$)', '', path))
             if m and self.is_enum_type(m.group(1)) and m.group(2) in self.enum_table(m.group(1)):
                 return VEnum(m.group(1), m.group(2), items)
+            if destty and '::' not in path and self.is_enum_type(destty) and path in self.enum_table(destty):
+                return VEnum(destty, path, items)
             return VStruct(path, items)
         if k == 'closure':
             f = VFn(None, closure=rv[1]); f.items = [self.operand(frame, o) for _, o in rv[2]]
@@ -688,7 +697,7 @@ class Interp:
                 k = st[0]
                 if k == 'nop': continue
                 if k == 'assign':
-                    val = self.rvalue(frame, st[2], body.locals.get(st[1][0]))
+                    val = self.rvalue(frame, st[2], body.locals.get(st[1][0]) if not st[1][1] else None)
                     self.store(frame, st[1], val)
                 elif k == 'goto': nxt = st[1]
                 elif k == 'return':
